@@ -414,13 +414,15 @@ func Run(c *engine.Ctx) {
 	// (5) through the ticket: VerifyAPREQ with the PAC in the authorization data
 	throughTicket(c, ms, &evals)
 	duplicatesAndPadding(c, ms, &evals)
+	undeclaredTypes(c, ms, &evals)
+	reusedValue(c, ms, &evals)
 
 	c.Add("evaluations", evals)
 	c.Add("states", evals)
 	c.Add("transitions", evals)
 	c.Add("traces_validated_against_impl", evals)
 	c.Cov["attribute_models"] = len(ms)
-	c.Cov["rule"] = "attribute models (5 name shapes x 0-3 groups x 0-2 extra SIDs x resource groups + 2 captured samples) x 5 signature types x 2 keys x RODC id present/absent: accepted with equal attributes, wrong key and every other declared type rejected; every single-bit flip of every byte of selected PACs per signature type; all 120 orders of five buffers, removal and duplication of each buffer; the captured PAC; the same through Ticket.GetPACType / VerifyAPREQ per etype. distinct = accepted (model,type,key,rodc) cells, (type, region) rejections, orders"
+	c.Cov["rule"] = "attribute models (5 name shapes x 0-3 groups x 0-2 extra SIDs x resource groups + 2 captured samples) x 5 signature types x 2 keys x RODC id present/absent: accepted with equal attributes, wrong key and every other declared type rejected; every single-bit flip of every byte of selected PACs per signature type; all 120 orders of five buffers, removal and duplication of each buffer; the captured PAC; the same through Ticket.GetPACType / VerifyAPREQ per etype; server signatures declaring every checksum type in -200..200 (+ extremes) outside the supported five with value lengths {0,1,12,16,20,24} under a key of every etype: rejected; one PACType value processing two PACs in turn (all ordered pairs of 4 models x 2 types, second PAC complete / without each mandatory buffer): the second result is the second PAC's or an error. distinct = accepted (model,type,key,rodc) cells, (type, region) rejections, orders"
 }
 
 func panicSite(p string) string {
@@ -746,6 +748,105 @@ func nameClass(n string) string {
 // is a signature (its value is zeroed for the computation); the later ones are ordinary signed data, so every bit of
 // them is covered. (b) a client-info buffer that is longer than its name (trailing bytes): the name reported is the
 // NameLength bytes that are encoded, nothing more.
+// undeclaredTypes: a server signature that declares a checksum type other than the supported ones can never be
+// "the signature computed with the service's key for the declared type" when its value is empty or all zero,
+// whatever key the service holds; such a PAC (whose content is otherwise well-formed) must be refused.
+func undeclaredTypes(c *engine.Ctx, ms []rpac.ValidationInfo, evals *int64) {
+	v := ms[0]
+	supported := map[int32]bool{}
+	for _, t := range sigTypes {
+		supported[t] = true
+	}
+	var types32 []int32
+	for t := int32(-200); t <= 200; t++ {
+		types32 = append(types32, t)
+	}
+	types32 = append(types32, -2147483648, 2147483647, 0x7fff, -0x8000, 65536+16, 256+16, -138+65536, 1<<24|16)
+	for _, declared := range types32 {
+		if supported[declared] {
+			continue
+		}
+		for _, n := range []int{0, 1, 12, 16, 20, 24} {
+			sigBuf := make([]byte, 4+n)
+			sigBuf[0], sigBuf[1], sigBuf[2], sigBuf[3] = byte(declared), byte(declared>>8), byte(declared>>16), byte(declared>>24)
+			bufs := []rpac.Buffer{{Type: rpac.TypeLogonInfo, Data: v.Encode()}, {Type: rpac.TypeClientInfo, Data: rpac.ClientInfo(v.LogonTime, v.EffectiveName.Value)},
+				{Type: rpac.TypeServerSig, Data: sigBuf}, {Type: rpac.TypeKDCSig, Data: rpac.SigBuffer(16, nil)}}
+			pb, _ := rpac.Assemble(bufs)
+			for _, et := range rcrypto.Etypes {
+				key := keyOf(et, c.Seed+5)
+				*evals++
+				r := process(pb, et, key)
+				rec := map[string]interface{}{"declared_type": declared, "signature_value_bytes": n, "service_key_etype": et}
+				cls := "other"
+				if n == 0 {
+					cls = "empty-value"
+				}
+				if r.panic != "" {
+					c.Violate("undeclared", fmt.Sprintf("panic:unsupported-declared-type:%s:%s", cls, panicSite(r.panic)), map[string]interface{}{"panic": r.panic}, rec)
+				} else if r.err == nil {
+					c.Violate("undeclared", fmt.Sprintf("accepts-unsigned-pac:declared-type-%d:%s", declared, cls), nil, rec)
+				}
+			}
+		}
+		c.Distinct(fmt.Sprintf("undeclared/%d", declared))
+	}
+}
+
+// reusedValue: one pac.PACType value used for two PACs in turn. Whatever the library makes of the reuse, a
+// successful second result has to be the second PAC's: its attributes, its mandatory buffers, its signature.
+func reusedValue(c *engine.Ctx, ms []rpac.ValidationInfo, evals *int64) {
+	pick := []rpac.ValidationInfo{ms[0], ms[1], ms[len(ms)/2], ms[len(ms)-1]}
+	for _, st := range []int32{16, -138} {
+		et := etypeOf(st)
+		key := keyOf(et, c.Seed+7)
+		for ia, a := range pick {
+			for ib, b := range pick {
+				orders := map[string][]uint32{
+					"complete":            {rpac.TypeLogonInfo, rpac.TypeClientInfo, rpac.TypeServerSig, rpac.TypeKDCSig},
+					"without-logon-info":  {rpac.TypeClientInfo, rpac.TypeServerSig, rpac.TypeKDCSig},
+					"without-client-info": {rpac.TypeLogonInfo, rpac.TypeServerSig, rpac.TypeKDCSig},
+				}
+				for name, order := range orders {
+					ba := build(a, st, key, nil, []uint32{rpac.TypeLogonInfo, rpac.TypeClientInfo, rpac.TypeServerSig, rpac.TypeKDCSig, rpac.TypeUPNDNS}, c.Seed)
+					bb := build(b, st, key, nil, order, c.Seed)
+					rec := map[string]interface{}{"signature_type": st, "first_model": ia, "second_model": ib, "second_pac": name}
+					*evals++
+					var p pac.PACType
+					var err1, err2 error
+					k := types.EncryptionKey{KeyType: et, KeyValue: key}
+					pn := safe(func() {
+						if err1 = p.Unmarshal(append([]byte{}, ba.pac...)); err1 == nil {
+							err1 = p.ProcessPACInfoBuffers(k, log.New(io.Discard, "", 0))
+						}
+						if err2 = p.Unmarshal(append([]byte{}, bb.pac...)); err2 == nil {
+							err2 = p.ProcessPACInfoBuffers(k, log.New(io.Discard, "", 0))
+						}
+					})
+					switch {
+					case pn != "":
+						c.Violate("reuse", "panic:reused-pactype:"+panicSite(pn), map[string]interface{}{"panic": pn}, rec)
+					case err1 != nil:
+						c.Violate("reuse", "rejects-genuine:first-pac-of-a-reused-value", map[string]interface{}{"err": err1.Error()}, rec)
+					case err2 != nil:
+						// refusing the reuse (or the incomplete PAC) is fine
+						c.Distinct("reuse/refused/" + name)
+					case name != "complete":
+						c.Violate("reuse", "accepts-pac-"+name+":reused-pactype", nil, rec)
+					case p.KerbValidationInfo == nil:
+						c.Violate("reuse", "no-attributes-after-success:reused-pactype", nil, rec)
+					default:
+						if d := attrDiff(p.KerbValidationInfo, b); d != "" {
+							c.Violate("reuse", "attributes-of-an-earlier-pac:reused-pactype", map[string]interface{}{"diff": d}, rec)
+						} else {
+							c.Distinct("reuse/second-pac-reported/" + name)
+						}
+					}
+				}
+			}
+		}
+	}
+}
+
 func duplicatesAndPadding(c *engine.Ctx, ms []rpac.ValidationInfo, evals *int64) {
 	v := ms[0]
 	for _, sigType := range []int32{15, 16, -138, 19, 20} {
